@@ -30,6 +30,14 @@ def build(t):
     import sympy
 
     h = t["h"]
+    if h == "wide":
+        # sums / products of MANY operands (beyond the arities the specification enumerates; judged numerically)
+        x, y = sympy.Symbol("x"), sympy.Symbol("y")
+        parts = [(k + 1) * x ** (k % 4 + 1) + y * (k % 3) + sympy.Rational(k, 7) if t["kind"] == "add" else (x + k + 1 + (k % 2) * y) for k in range(t["n"])]
+        if t["kind"] == "add":
+            parts = [sympy.sin(p_) if i_ % 2 else p_ ** 2 for i_, p_ in enumerate(parts)]     # n distinct, non-mergeable summands
+            return sympy.Add(*parts)
+        return sympy.Mul(*parts)
     if h == "sym":
         return sympy.Symbol(t["s"])
     if h == "int":
@@ -259,6 +267,8 @@ def process(ctx, c):
             # sympy may cancel a symbol (x - x); only a symbol that APPEARS from nowhere is wrong
             if not set(map(str, b_expr.free_symbols)) <= set(map(str, e.free_symbols)):
                 rec["fails"].append(("symbols", "%s translates back to %s with other symbols" % (e, b_expr)))
+    if c["tree"].get("h") == "wide":
+        rec["numeric_only"] = "arity beyond the specification's bounds (32-bit arithmetic of the test interpretation): judged numerically"
     if T is not None and rec["numeric_only"] is None:
         try:
             line = {"T": T, "out": out, "N": to_ntree(n) if out == "ok" else node("num"), "B": to_tree(b_expr) if out == "ok" else node("int")}
@@ -329,6 +339,7 @@ def run(ctx):
         if k not in seen:
             seen.add(k)
             cases.append(c)
+    cases += [{"tree": {"h": "wide", "kind": kd, "n": n_}} for kd in ("add", "mul") for n_ in (9, 10, 11, 16, 17, 33)]
     recs = ctx.pmap(process, cases, chunksize=64)
     lines, owners = [], []
     n_numeric_only = n_skip = 0
